@@ -52,9 +52,16 @@ namespace verif
         T().leak_alloc  = info.allocator;
         T().leak_name   = info.name;
     }
+    inline std::function<bool()>& g_state_unchanged()
+    {
+        static std::function<bool()> f;
+        return f;
+    }
     inline void h_invptr(const fm::allocator_info&, const void*) noexcept
     {
         ++T().invptr_h;
+        if (g_state_unchanged())
+            T().report_state_same = g_state_unchanged()() ? 1 : 0;
         guard_escape(OUT_REPORTED); // the handler must not return into the allocator
     }
     inline void h_overflow(const void* mem, std::size_t size, const void* ptr) noexcept
@@ -234,7 +241,8 @@ namespace verif
         OP_EXTRA,
         OP_BULK,
         OP_UNBULK,
-        OP_CONSTRUCT
+        OP_CONSTRUCT,
+        OP_BAD
     };
     struct opdesc
     {
@@ -248,6 +256,7 @@ namespace verif
         bool        try_release = false;
         bool        destroy_op  = true;
         int         bulk        = 0;     // size of the bulk group (0 = no bulk operations)
+        bool        bad         = false; // add the deliberately invalid calls the debug checks must report (C16)
         bool        objhi       = false; // place the allocator objects above the arena instead of below
     };
     inline common_params& CP()
@@ -320,6 +329,9 @@ namespace verif
                     v.push_back({OP_UNBULK, s, 0});
                     v.push_back({OP_UNBULK, s, 1});
                 }
+            if (cp.bad)
+                for (int i = 0; i < P::nbad(); ++i)
+                    v.push_back({OP_BAD, 0, i});
             if (cp.faults)
                 v.push_back({OP_ARMFAIL, 0, 0});
             if (cp.slots == 2 && cp.moves)
@@ -396,6 +408,8 @@ namespace verif
                 return "destroy";
             case OP_EXTRA:
                 return P::extra_kind(d.b);
+            case OP_BAD:
+                return P::bad_kind(d.b);
             case OP_CONSTRUCT:
                 return "construct";
             case OP_BULK:
@@ -435,6 +449,8 @@ namespace verif
                 return fmt("destroy(s%d%s)", d.a, w.h.slot_state[d.a] == ST_MOVED ? ",moved-from" : "");
             case OP_EXTRA:
                 return fmt("s%d.%s", d.a, P::extra_name(w.x, d.b).c_str());
+            case OP_BAD:
+                return "INVALID " + P::bad_name(w, d.a, d.b);
             case OP_CONSTRUCT:
                 return fmt("s%d=new allocator", d.a);
             case OP_BULK:
@@ -470,6 +486,8 @@ namespace verif
                 return h.slot_state[d.a] != ST_DEAD;
             case OP_EXTRA:
                 return h.slot_state[d.a] == ST_VALID && P::extra_enabled(w.x, h.sh, d.a, d.b);
+            case OP_BAD:
+                return h.slot_state[d.a] == ST_VALID && P::bad_enabled(w, d.a, d.b);
             case OP_CONSTRUCT:
                 return h.constructs_left > 0 && h.slot_state[d.a] == ST_DEAD;
             case OP_BULK:
@@ -566,6 +584,34 @@ namespace verif
             case OP_ALLOC:
                 do_alloc(d.a, P::make_req(w.x, d.a, d.b), false);
                 break;
+            case OP_BAD:
+            {
+                // a deliberately invalid call that the configured debug checks cover: it must be reported through the
+                // invalid-pointer handler or stop the program (abort), before the allocator changed
+                h.up.cur_owner = u32(d.a);
+                t.terminal     = true;
+                // "state" = all memory the allocator manages + its public counters (internal lookup caches may move)
+                std::vector<u8> before(w.arena, w.arena + CP().arena);
+                u64 dig = P::digest(w, d.a);
+                g_state_unchanged() = [&]() { return std::memcmp(before.data(), w.arena, CP().arena) == 0 && P::digest(w, d.a) == dig; };
+                std::string bad_nm = P::bad_name(w, d.a, d.b);
+                int oc = guarded([&] { P::bad_call(w, d.a, d.b); });
+                g_state_unchanged() = nullptr;
+                t.outcome = outcome_name(oc);
+                if (oc == OUT_OK)
+                    t.fail("M-report", "invalid-call-not-reported",
+                           fmt("%s returned normally: neither the invalid-pointer handler ran nor was the program stopped", bad_nm.c_str()));
+                else if (oc == OUT_HUNG)
+                    t.fail("M-report", "invalid-call-hangs", fmt("%s never returned", bad_nm.c_str()));
+                else if (oc == OUT_CRASHED)
+                    t.fail("M-report", "invalid-call-crashes",
+                           fmt("%s crashed (memory fault) instead of being reported", bad_nm.c_str()));
+                else if (oc == OUT_REPORTED && t.report_state_same == 0)
+                    t.fail("M-report", "state-changed-before-report",
+                           fmt("%s was reported only after the allocator object had been modified", bad_nm.c_str()));
+                t.event(oc == OUT_REPORTED ? "bad_call_reported" : oc == OUT_ABORTED ? "bad_call_aborted" : "bad_call_other");
+                return; // no further monitors: the state behind an invalid call is not meaningful
+            }
             case OP_CONSTRUCT:
             {
                 h.up.cur_owner = u32(d.a);
@@ -1110,6 +1156,7 @@ namespace verif
         cp.try_release = a.n("tryrel", 0) != 0;
         cp.destroy_op  = a.n("destroy", 1) != 0;
         cp.bulk        = int(a.n("bulk", 0));
+        cp.bad         = a.n("bad", 0) != 0;
         cp.objhi       = a.n("objhi", 0) != 0;
         if (cp.L > MAXL)
             cp.L = MAXL;
@@ -1135,6 +1182,8 @@ namespace verif
             std::printf("violations: %d\n", nv);
             return nv > 0 ? 1 : (nv < 0 ? 2 : 0);
         }
+        if (!a.m.count("verbose"))
+            std::freopen("/dev/null", "w", stderr); // the library prints a line per contained assertion failure
         explore_limits lim;
         lim.max_states = std::size_t(a.n("max_states", 2000000));
         lim.deadline_s = now_s() + double(a.n("time_s", 600));
